@@ -138,42 +138,52 @@ package l1infotreesync
 //@ func (p *processor) GetInfoByGlobalExitRoot
 //@   props C09 C12
 //@   trusted
+//@   modifies nothing
 //@   sqltext "SELECT * FROM l1info_leaf WHERE global_exit_root = $1 LIMIT 1;"
 //@ func (p *processor) getInfoByIndexWithTx
 //@   props C09 C11 C12
 //@   trusted
+//@   modifies nothing
 //@   sqltext "SELECT * FROM l1info_leaf WHERE position = $1;"
 //@ func (p *processor) GetLastInfo
 //@   props C11 C12
 //@   trusted
+//@   modifies nothing
 //@   sqltext "SELECT * FROM l1info_leaf ORDER BY block_num DESC, block_pos DESC LIMIT 1;"
 //@ func (p *processor) GetFirstInfo
 //@   props C12
 //@   trusted
+//@   modifies nothing
 //@   sqltext "SELECT * FROM l1info_leaf ORDER BY block_num ASC, block_pos ASC LIMIT 1;"
 //@ func (p *processor) GetFirstInfoAfterBlock
 //@   props C12
 //@   trusted
+//@   modifies nothing
 //@   sqltext "SELECT * FROM l1info_leaf WHERE block_num >= $1 ORDER BY block_num ASC, block_pos ASC LIMIT 1;"
 //@ func (p *processor) GetFirstL1InfoWithRollupExitRoot
 //@   props C12
 //@   trusted
+//@   modifies nothing
 //@   sqltext "SELECT * FROM l1info_leaf WHERE rollup_exit_root = $1 ORDER BY block_num ASC, block_pos ASC LIMIT 1;"
 //@ func (p *processor) GetLastVerifiedBatches
 //@   props C12
 //@   trusted
+//@   modifies nothing
 //@   sqltext "SELECT * FROM verify_batches WHERE rollup_id = $1 ORDER BY block_num DESC, block_pos DESC LIMIT 1;"
 //@ func (p *processor) GetFirstVerifiedBatches
 //@   props C12
 //@   trusted
+//@   modifies nothing
 //@   sqltext "SELECT * FROM verify_batches WHERE rollup_id = $1 ORDER BY block_num ASC, block_pos ASC LIMIT 1;"
 //@ func (p *processor) GetFirstVerifiedBatchesAfterBlock
 //@   props C12
 //@   trusted
+//@   modifies nothing
 //@   sqltext "SELECT * FROM verify_batches WHERE rollup_id = $1 AND block_num >= $2 ORDER BY block_num ASC, block_pos ASC LIMIT 1;"
 //@ func (p *processor) GetProcessedBlockUntil
 //@   props C09 C15
 //@   trusted
+//@   modifies nothing
 //@   sqltext "SELECT num, hash FROM block WHERE num <= $1 ORDER BY num DESC LIMIT 1;"
 
 // ---- decoding the watched L1 logs into events of the block (C11, C05): one event per log; the info-tree update takes
@@ -232,3 +242,11 @@ package l1infotreesync
 //@   props C08 C09 C12
 //@   requires s != nil && s.processor != nil && s.processor.l1InfoTree != nil && s.processor.l1InfoTree.Tree != nil && len(s.processor.l1InfoTree.Tree.zeroHashes) == 33
 //@   ensures[proof-of-that-index-to-that-root] (!old(s.processor.halted) && result1 == nil && forall(h, 1, 33, rhtHas(s.processor.l1InfoTree.Tree)[desc(rhtL(s.processor.l1InfoTree.Tree), rhtR(s.processor.l1InfoTree.Tree), root, index, h)])) ==> foldUp(desc(rhtL(s.processor.l1InfoTree.Tree), rhtR(s.processor.l1InfoTree.Tree), root, index, 0), result0, index, 32) == root
+
+// the proof of a leaf to the root that was current when that leaf was added (C08, C12): the root is looked up by the
+// leaf's index and the proof is asked for exactly that index and that root's hash
+//@ func (p *processor) GetL1InfoTreeMerkleProof
+//@   props C08 C12
+//@   requires p != nil && p.l1InfoTree != nil && p.l1InfoTree.Tree != nil && len(p.l1InfoTree.Tree.zeroHashes) == 33
+//@   assert call:GetRootByIndex arg0 == p.l1InfoTree.Tree && arg2 == index
+//@   assert call:GetProof arg0 == p.l1InfoTree.Tree && arg2 == index
